@@ -22,13 +22,14 @@ Domain mapping (TRUSTED, fail-closed - anything not listed raises Untranslatable
                    self.document += transition -> layout ++ [transition] ; self.document += footnote -> layout ++ [LFoot label]
                    footnote.parent.remove(footnote) -> remove_foot footnote layout
                    try: return 0, int(label) / except ValueError: return 1, label -> match int_of label with Some n => KInt n | None => KStr label
-                   sorted(L, key=f) -> isort f ckey_leb L"""
+                   sorted(L, key=f) -> isort f ckey_leb L
+"""
 from __future__ import annotations
 
 import ast
 from pathlib import Path
 
-from gen.c09_pywalk import Env, Untranslatable, Walker, coq_str, find_method
+from gen.c09_pywalk import Env, Untranslatable, Walker, canonicalize, coq_str, find_method
 
 DOC = "self.document"
 
@@ -308,7 +309,48 @@ class FootWalker(Walker):
         return f"let {f.name} := (fun ({args[0]} : {ty}) =>\n{body}) in\n{self.block(rest, env, k)}"
 
 
+def canon_rule_for(which):
+    def rule(kind, src, arity):
+        if which == "sort":
+            if kind == "assign" and src.startswith("[") and "self.document.autofootnote_refs" in src:
+                return ("ref_order",)
+            if kind == "def":
+                return ("_sort_key",)
+            if kind == "arg" and arity == 1:
+                return ("node",)
+        if which == "detect":
+            if kind == "for" and arity == 1:
+                return ("node",)
+        if which == "collect":
+            if kind == "assign" and src == "[]":
+                return ("footnotes",)
+            if kind == "assign" and src == "footnote.children[0]":
+                return ("label",)
+            if kind == "assign" and src.startswith("nodes.transition("):
+                return ("transition",)
+            if kind == "assign" and src == "footnote" and arity == 2:
+                return ("label", "_")
+            if kind == "for" and arity == 1:
+                return ("footnote",)
+            if kind == "for" and arity == 2:
+                return ("_", "footnote")
+            if kind == "def":
+                return ("_sort_key",)
+            if kind == "arg" and arity == 1:
+                return ("footnote",)
+        if which == "render":
+            if kind == "assign" and src == "token.meta['label']":
+                return ("target",)
+            if kind == "assign" and src.startswith("nodes.footnote_reference("):
+                return ("refnode",)
+            if kind == "assign" and src == "nodes.footnote()":
+                return ("footnote",)
+        return None
+    return rule
+
+
 def translate(fn, which):
+    fn = canonicalize(fn, canon_rule_for(which))
     m = FootMap(which)
     w = FootWalker(m.expr, m.effect, False, None, m.loop)
     w.loop_state_hook = m.loop_state
@@ -331,17 +373,125 @@ def translate(fn, which):
             "(s : fstate) : fstate :=\nlet layout := s_layout s in\n" + body + ".\n")
 
 
+# ---------------------------------------------------------------- base.py: the two footnote render methods
+
+RENDER_DOC = """  base.py      token.meta["label"] -> the parameter target ; target.isdigit() -> isdigit target ;
+               nodes.footnote_reference(..) -> new_ref g target (the next reference of the document) ; refnode["auto"] = 1 -> ref_set_auto ;
+               refnode["refname"] = target -> ref_set_refname ; refnode += nodes.Text(target) / add_line_and_source_path -> nothing ;
+               self.document.note_autofootnote_ref / note_footnote_ref -> the registry updates of FootOps ;
+               self.current_node.append(refnode) -> append_ref ; nodes.footnote() -> new_fn body ; footnote["names"].append(target) -> fn_add_name ;
+               footnote["auto"] = 1 -> fn_set_auto ; footnote += nodes.label("", target) -> nothing ; note_footnote / note_autofootnote /
+               note_explicit_target -> registry updates ; any(target in fn["names"] or target in fn["dupnames"] for fn in (*footnotes, *autofootnotes))
+               -> existsb over g_footnotes g ++ g_autofootnotes g ; self.create_warning(f"Duplicate ..{target}..", "footnote", wtype="ref", ..)
+               -> add_warn g (WDup target) ; `with self.current_node_context(footnote, append=True): self.render_children(token)` -> the
+               children are rendered by the caller (Foot.render_blk) ; return -> (g, false), end of the method -> (g, true)"""
+
+RENDER_SKIP = {"self.add_line_and_source_path(refnode, token)", "self.add_line_and_source_path(footnote, token)",
+               "refnode += nodes.Text(target)", "footnote += nodes.label('', target)", "target = token.meta['label']",
+               "with self.current_node_context(footnote, append=True):\n    self.render_children(token)"}
+
+
+class RenderMap:
+    def expr(self, e, env, w):
+        src = u(e)
+        if isinstance(e, ast.Call) and isinstance(e.func, ast.Name) and e.func.id == "__truthy":
+            t = e.args[0]
+            ts = u(t)
+            if ts == "target.isdigit()":
+                return "(isdigit target)", False
+            if (isinstance(t, ast.Call) and u(t.func) == "any" and len(t.args) == 1 and isinstance(t.args[0], ast.GeneratorExp)):
+                g = t.args[0]
+                if (len(g.generators) != 1 or g.generators[0].ifs or u(g.generators[0].target) != "footnote"
+                        or u(g.generators[0].iter) != "(*self.document.footnotes, *self.document.autofootnotes)"):
+                    raise Untranslatable("duplicate test: generator")
+                e2 = env.copy()
+                e2.types["footnote"] = "fn"
+                return f"(existsb (fun footnote => {w.test(g.elt, e2)}) (g_footnotes g ++ g_autofootnotes g))", False
+            if isinstance(t, ast.Compare) and len(t.ops) == 1 and isinstance(t.ops[0], ast.In) and u(t.left) == "target":
+                r = t.comparators[0]
+                if u(r) == "footnote['names']" and env.types.get("footnote") == "fn":
+                    return "(mem_str target (fn_names footnote))", False
+                if u(r) == "footnote['dupnames']" and env.types.get("footnote") == "fn":
+                    return "(mem_str target (fn_dupnames footnote))", False
+            raise Untranslatable(f"test {ts}")
+        if src.startswith("nodes.footnote_reference(") and len(e.args) == 1:
+            w._last_type = "rf"
+            return "new_ref g target", False
+        if src == "nodes.footnote()":
+            w._last_type = "fn"
+            return "new_fn body", False
+        raise Untranslatable(f"expression {src}")
+
+    def effect(self, s, env, w):
+        src = u(s)
+        table = {
+            "refnode['auto'] = 1": [("refnode", "ref_set_auto refnode", False)],
+            "self.document.note_autofootnote_ref(refnode)": [("g", "note_autofootnote_ref g refnode", False)],
+            "refnode['refname'] = target": [("refnode", "ref_set_refname refnode target", False)],
+            "self.document.note_footnote_ref(refnode)": [("g", "note_footnote_ref g refnode", False)],
+            "self.current_node.append(refnode)": [("g", "append_ref g refnode", False)],
+            "footnote['names'].append(target)": [("footnote", "fn_add_name footnote target", False)],
+            "footnote['auto'] = 1": [("footnote", "fn_set_auto footnote", False)],
+            "self.document.note_footnote(footnote)": [("g", "note_footnote g footnote", False)],
+            "self.document.note_autofootnote(footnote)": [("g", "note_autofootnote g footnote", False)],
+            "self.document.note_explicit_target(footnote, footnote)": [("g", "note_explicit_target g footnote", False)],
+        }
+        if src in table:
+            return table[src]
+        if isinstance(s, ast.Expr) and isinstance(s.value, ast.Call) and u(s.value.func) == "self.create_warning":
+            c = s.value
+            kw = {k.arg: u(k.value) for k in c.keywords}
+            ok = (len(c.args) == 2 and isinstance(c.args[0], ast.JoinedStr)
+                  and any(isinstance(v, ast.FormattedValue) and u(v.value) == "target" for v in c.args[0].values)
+                  and any(isinstance(v, ast.Constant) and "Duplicate footnote definition" in str(v.value) for v in c.args[0].values)
+                  and u(c.args[1]) == "'footnote'"
+                  and kw == {"wtype": "'ref'", "line": "token_line(token)", "append_to": "self.current_node"})
+            if not ok:
+                raise Untranslatable(f"create_warning call {src[:140]}")
+            return [("g", "add_warn g (WDup target)", False)]
+        return None
+
+    def skip(self, s):
+        return u(s) in RENDER_SKIP
+
+
+def translate_render(fn, which):
+    fn = canonicalize(fn, canon_rule_for("render"))
+    m = RenderMap()
+    w = Walker(m.expr, m.effect, False, m.skip, None)
+    if [a.arg for a in fn.args.args] != ["self", "token"]:
+        raise Untranslatable(f"{fn.name} signature")
+    env = Env({"g": "regs", "target": "str"})
+    if which == "ref":
+        w.k_return = lambda e, v: (_ for _ in ()).throw(Untranslatable("return in render_footnote_ref"))
+        body = w.block(list(fn.body), env, lambda e: "g")
+        return ("Definition render_footnote_ref_src (isdigit : str -> bool) (g : regs) (target : str) : regs :=\n" + body + ".\n")
+    w.k_return = lambda e, v: "(g, false)" if v is None else (_ for _ in ()).throw(Untranslatable("return value"))
+    body = w.block(list(fn.body), env, lambda e: "(g, true)")
+    return ("Definition render_footnote_reference_src (isdigit : str -> bool) (g : regs) (target : str) (body : N) "
+            ": regs * bool :=\n" + body + ".\n")
+
+
+def find_renderer_method(tree, name):
+    return find_method(tree, "DocutilsRenderer", name)
+
+
 def generate(repo: Path) -> str:
     tree = ast.parse((repo / "myst_parser/mdit_to_docutils/transforms.py").read_text())
     parts = [translate(find_method(tree, "SortFootnotes", "apply"), "sort"),
              translate(find_method(tree, "UnreferencedFootnotesDetector", "apply"), "detect"),
              translate(find_method(tree, "CollectFootnotes", "apply"), "collect")]
-    return ("(* GENERATED by gen/c11_src.py from myst_parser/mdit_to_docutils/transforms.py - do not edit *)\n"
+    btree = ast.parse((repo / "myst_parser/mdit_to_docutils/base.py").read_text())
+    parts.append(translate_render(find_renderer_method(btree, "render_footnote_ref"), "ref"))
+    parts.append(translate_render(find_renderer_method(btree, "render_footnote_reference"), "def"))
+    return ("(* GENERATED by gen/c11_src.py from myst_parser/mdit_to_docutils/transforms.py and base.py - do not edit *)\n"
             "From Coq Require Import List NArith Bool.\n"
             "From MV Require Import Base.PyStr Base.Res Refs.RUtil Gen.Transforms Refs.Foot Refs.FootOps.\n"
             "Import ListNotations.\nOpen Scope N_scope.\n\n"
             "(* SortFootnotes.apply *)\n" + parts[0] + "\n(* UnreferencedFootnotesDetector.apply *)\n" + parts[1]
-            + "\n(* CollectFootnotes.apply *)\n" + parts[2])
+            + "\n(* CollectFootnotes.apply *)\n" + parts[2]
+            + "\n(* DocutilsRenderer.render_footnote_ref (base.py) *)\n" + parts[3]
+            + "\n(* DocutilsRenderer.render_footnote_reference (base.py) *)\n" + parts[4])
 
 
 if __name__ == "__main__":
